@@ -14,6 +14,7 @@
 (*   {"e":"timeout","a":a,"lc":[..]}                 the pending access returned ErrCriticalSectionAborted, section aborted *)
 (*   {"e":"end","a":a,"how":"commit"|"abort","lc":[..]}                            *)
 (*   {"e":"obs","m":m,"vals":[..],"lc":[..]}         GetState() of manager m: values of its cells      *)
+(*   {"e":"die","a":a,"lc":[..]}                     the body returned a fatal error, Run returned it and closed the resources *)
 (* "lc" is the length of each manager's lockCh after the event, or [] if unknown. *)
 EXTENDS LocalShared
 
@@ -47,6 +48,7 @@ Step(e) ==
     [] e.e = "grant"   -> Grant(e.a) /\ (want[e.a].k = "r" => val[want[e.a].c] = e.v) /\ LcOK(e)
     [] e.e = "timeout" -> Timeout(e.a) /\ LcOK(e)
     [] e.e = "end"     -> (IF e.how = "commit" THEN EndCommit(e.a) ELSE EndAbort(e.a)) /\ LcOK(e)
+    [] e.e = "die"     -> EndDie(e.a) /\ LcOK(e)
     [] e.e = "obs"     -> /\ ObsOK(e.m) /\ UNCHANGED vars /\ LcOK(e)
                           /\ LET cs == CellsOfLock(e.m) IN
                              \A c \in cs : e.vals[Cardinality({d \in cs : d <= c})] = val[c]
